@@ -90,7 +90,8 @@ def one(ctx, name, cfg, kind, f, decider, do_model=True, label="", cut=None):
                 cuts.add(pos)
             return cuts == {q for q in range(1, len(data_)) if data_[q - 1] in cut[1] or data_[q] in cut[0]}
         grown = [a for a in run.atts if a["tag"] == 3 and a["resp"] == "a" and nred(a["cand"]) > nred(a["best_before"])]
-        regrown = name == "minimize-collapse-brace" and bool(grown) and all(resplit_ok(a["cand"]) for a in grown)
+        regrown = name == "minimize-collapse-brace" and bool(grown) and all(resplit_ok(a["cand"]) for a in grown) and \
+            not any(len(strat.content(a["cand"])) > len(strat.content(a["best_before"])) for a in grown)   # collapsing never lengthens the text
         if name == "replace-arguments-by-globals" and grew and b"".join(f[1]) in KNOWN_GROWING:
             ctx.fail("replace-arguments-grows", f"{tests}+ tests > bound {bound} on B={B} bytes (the file grows)", case)
         elif regrown and byte_bound_holds(name, cfg, kind, f, decider, cut, B):
@@ -418,6 +419,41 @@ def option_values(ctx):
         os.chdir(cwd)
 
 
+def stingy_collapse(ctx):
+    """minimize-collapse-brace against a STATEFUL, stingy test (in the style of the project's own unit tests): it accepts a
+    candidate that only adds white space to the accepted file, and otherwise one single-atom removal (white-space atoms
+    first) after a long row of rejections.  Files full of adjacent brace pairs, symbol atoms with the default sets."""
+    import re as _re
+    for data in (b"".join(b"x%d{}" % i for i in range(24)), b"".join(b"y%d{ }" % i for i in range(16)), b"".join(b"z%d{\n}" % i for i in range(12)),
+                 b"".join(b"w%d{}\n" % i for i in range(20))):
+        for kind in ("symbol", "char", "line"):
+            res = loaders.real_load(kind, data)
+            if res[0] != "ok":
+                continue
+            f = strat.fields(res[1])
+            state = dict(accepted=data, row=0)
+
+            def dec(k, c, state=state, kind=kind):
+                acc = state["accepted"]
+                r2 = loaders.real_load(kind, acc)
+                atoms = list(r2[1].parts) if r2[0] == "ok" else [acc]
+                blanks = [i for i, a in enumerate(atoms) if not a.strip()]
+                one_gone = any(c == b"".join(atoms[:i] + atoms[i + 1:]) for i in (blanks or range(len(atoms))))
+                if len(c) > len(acc) and _re.sub(rb"\s+", b"", c) == _re.sub(rb"\s+", b"", acc):
+                    v = True
+                elif one_gone and state["row"] >= len(atoms) - 3:
+                    v = True
+                else:
+                    v = False
+                if v:
+                    state["accepted"], state["row"] = c, 0
+                else:
+                    state["row"] += 1
+                return v
+
+            one(ctx, "minimize-collapse-brace", dict(), kind, f, dec, False, "stingy-collapse")
+
+
 def search(ctx):
     option_values(ctx)
     collapse_runs(ctx, do_model=False)
@@ -436,6 +472,7 @@ def run(ctx) -> int:
     collapse_runs(ctx)
     marker_forming(ctx)
     collapse_deterministic(ctx)
+    stingy_collapse(ctx)
     if trees(ctx, 6000 if ctx.thorough else 250):
         ctx.exhaustive.append("every verdict sequence of the four removal strategies for n <= 4 atoms (repeat last/always)")
     hill_climb(ctx, 400 if ctx.thorough else 60)
